@@ -283,10 +283,13 @@ class Gen:
         self.rng, self.kind = rng, kind
         self.nv = 0
         self.feats = feats or {}
+        # a quarter of the programs spell their variables with a capital first letter (`X1`): a variable is a variable whatever its spelling
+        # (a check that guesses "constant / enum variant" from the spelling would exempt them)
+        self.cap = rng.fork("cap").chance(1, 4)
 
     def fresh(self, pre="x"):
         self.nv += 1
-        return f"{pre}{self.nv}"
+        return f"{'X' if self.cap and pre == 'x' else pre}{self.nv}"
 
     def int_expr(self, bound):
         r = self.rng
